@@ -125,8 +125,13 @@ class GULP_PairTabulation(PairTabulation_AbstractBase):
 
     :param fp: File object into which data should be written."""
     
+    # Tabulate into a buffer first: if evaluating a potential fails nothing is written to fp,
+    # rather than a truncated spline that GULP would read as a shorter potential.
+    from io import StringIO
+    workout = StringIO()
     for pot in self.potentials:
-      self._write_pot(pot, fp)
+      self._write_pot(pot, workout)
+    fp.write(workout.getvalue())
 
   def _write_pot(self, pot, fp):
     header_template = u"{speciesA} {speciesB} {cutoff}\n"
